@@ -4,7 +4,8 @@
  *                          "null" context in slot 0.  It does not touch spifconf_vars: a cycle therefore needs
  *                          spifconf_vars == NULL from the preceding free (requires clause).
  *  - free_subsystem   (B)  frees everything the subsystem allocated (tables, names, variable list) and leaves no
- *                          file-local pointer referring to freed memory.  The loops free one heap block per
+ *                          file-local pointer referring to freed memory (spifconf_vars was left dangling until
+ *                          fix 585bdfe: finding C11-vars-dangling).  The loops free one heap block per
  *                          entry, and free()'s own obligations (valid, not yet freed) cannot be guarded by a
  *                          ghost index, so the proof is bounded: <= 2 variables, <= 2 built-ins, <= 2 contexts;
  *                          loops unwound; plain harness with --memory-leak-check.
